@@ -159,6 +159,27 @@ def run(res, tier, seed):
                     # the DataFrame form sorts rows by start first (pairs kept), then the arrays independently: same multisets
                     pass
                 check_output(res, "IntervalSet[%s]" % fname, inp, e2, mout, prs)
+    # integer and single-precision dtypes (whole seconds) in the three array forms: the order type of the case is kept (endpoints replaced by their ranks), the model
+    # is asked about the rank ticks.  Unsigned dtypes are where `np.diff(x) > 0` wraps around (genuine defect repaired in 97cebbb; seed C01-6)
+    icases = []
+    for n, prs in enumerate(cases):
+        if n % 23 == 11 and prs:
+            rank = {v: i for i, v in enumerate(sorted({x for pr in prs for x in pr}))}
+            icases.append([(rank[s_], rank[e_]) for s_, e_ in prs])
+    imodel = C.run_model(["mk_iset\t%s\t%s" % (C.fmt_ints([s_ * 10**9 for s_, _ in p]), C.fmt_ints([e_ * 10**9 for _, e_ in p])) for p in icases])
+    DT = [np.uint8, np.uint16, np.uint32, np.uint64, np.int8, np.int32, np.int64, np.float32]
+    for n, (prs, mo) in enumerate(zip(icases, imodel)):
+        mv = [int(x) for x in mo.split()]
+        mout = list(zip(mv[0::2], mv[1::2]))
+        tprs = [(s_ * 10**9, e_ * 10**9) for s_, e_ in prs]
+        dt = DT[n % len(DT)]
+        ss, es = np.array([s_ for s_, _ in prs], dtype=dt), np.array([e_ for _, e_ in prs], dtype=dt)
+        inp = {"start_s": ss.tolist(), "end_s": es.tolist(), "dtype": np.dtype(dt).name}
+        for fname, f in (("two_arrays", lambda: nap.IntervalSet(ss, es)), ("pairs", lambda: nap.IntervalSet(np.stack([ss, es], axis=1))),
+                         ("dataframe", lambda: nap.IntervalSet(pd.DataFrame({"start": ss, "end": es}))), ("lists", lambda: nap.IntervalSet(ss.tolist(), es.tolist()))):
+            res.evaluations += 1
+            res.count("form=%s,dtype=%s" % (fname, np.dtype(dt).name))
+            check_output(res, "IntervalSet[%s,%s]" % (fname, np.dtype(dt).name), inp, f(), mout, tprs)
     # results of operations are canonical (every operation re-enters the constructor)
     ops_cases = 0
     S = G.canonical_isets(G.lattice(7), 3)
